@@ -89,6 +89,8 @@ Definition judge_guess (o : guess_obs) : string :=
         (negb (N.eqb (go_expect o) 1) || jeqm (go_canon o) j') && go_text_same o
     | _ => negb (N.eqb (go_expect o) 1) && go_text_same o
     end in
-  ("GUESS idx=" ++ N2s (go_idx o) ++ " acc=" ++ acc ++ " C11=" ++ OpsCheck.b2s mon ++
+  (* C01, base case: an accepted guess conforms to the spec *)
+  let mon01 := match go_res o with GOk v _ => conforms (go_spec o) v | _ => true end in
+  ("GUESS idx=" ++ N2s (go_idx o) ++ " acc=" ++ acc ++ " C11=" ++ OpsCheck.b2s mon ++ " C01=" ++ OpsCheck.b2s mon01 ++
    " C15=" ++ OpsCheck.b2s (match go_res o with GPanic => false | _ => true end) ++
    " accepted=" ++ OpsCheck.b2s (match go_res o with GOk _ _ => true | _ => false end) ++ " END").
